@@ -536,15 +536,16 @@ def wrapper_preconditions(repo, rep):
             is_global = name in {g["name"] for g in cf.globals} and name not in cf.params(fn)
             used_after = False
             realloc = False
-            for s in body[i + 1:]:
-                for m in cf.walk(s):
-                    if cnative.is_assign(m) and ex(m["inner"][0]) == ("var", name):
-                        realloc = True
-                    if m.get("kind") == "DeclRefExpr" and m["referencedDecl"]["name"] == name and not realloc:
-                        # ignore the DeclRef that is the LHS of the reallocating assignment
-                        par = m.get("_p")
-                        if not (par is not None and cnative.is_assign(par) and par["inner"][0] is m):
-                            used_after = True
+            # everything executed after the free(), in execution order (tree positions), wherever it is nested
+            later = sorted((m for m in cf.walk(cf.func(fn)) if cf.pb(m) is not None and cf.pb(m) > cf.pe(n)), key=cf.pb)
+            for m in later:
+                if cnative.is_assign(m) and ex(m["inner"][0]) == ("var", name):
+                    realloc = True
+                if m.get("kind") == "DeclRefExpr" and m["referencedDecl"]["name"] == name and not realloc:
+                    # ignore the DeclRef that is the LHS of the reallocating assignment
+                    par = m.get("_p")
+                    if not (par is not None and cnative.is_assign(par) and par["inner"][0] is m):
+                        used_after = True
             if used_after:
                 rep.fail("R-C20-7", SPECPART_C, cf.line(n), fn, cf.text(n), f"'{name}' is used after free()")
             elif is_global and not realloc:
